@@ -32,7 +32,10 @@ CHECKS = {
             "leaves (all operations incl. join/chain), hence join-identity/trivial flags and the short-cuts keyed on "
             "them. " + CORR, "", "DESIGN.md 5/C06"),
     "C07": (TV, "Lean model + correspondence (proofs in progress)", CORR, "", "DESIGN.md 5/C07"),
-    "C08": (TV, "Lean model + correspondence (proofs in progress)", CORR, "", "DESIGN.md 5/C08"),
+    "C08": (TV, "Lean model + correspondence incl. execution of every generated query on SQLite; supporting theorems for the iteration engine",
+            CORR + "Supporting machine-checked theorems (Props/C08.lean): every accepted iteration-engine history executes and "
+            "iterates without any error; _finish_apply raises nothing but the documented EngineError. The SQL half "
+            "(database accepts the generated SELECT) is validated on SQLite, not proved.", "", "DESIGN.md 5/C08"),
     "C09": (PR, "Lean 4 theorem over the regenerated dataclass schema + fingerprint monitoring of every pool relation",
             "Machine-checked over the schema re-read from the live classes each run: every relation/operation/"
             "expression class is a frozen eq dataclass whose compared fields are hashable (proof, partial: Python-level "
@@ -58,7 +61,11 @@ CHECKS = {
             "Machine-checked for all predicate/expression trees and rows: as_trivial sound (spec and callable), "
             "flatten_logical_and sound, Selection normalisation equivalent, required columns sufficient. " + CORR,
             "", "DESIGN.md 5/C13"),
-    "C14": (TV, "Lean model + correspondence (proofs in progress)", CORR, "", "DESIGN.md 5/C14"),
+    "C14": (TV, "Lean model + correspondence + structural walk of every tree the real library returns; supporting theorems",
+            CORR + "Supporting machine-checked theorems (Props/C14.lean): _finish_apply preserves well-formedness and engine "
+            "consistency; every tree built by an iteration-engine history is WF and engine-consistent; automatic join "
+            "resolution yields key columns of both operands; transferred_to never creates a self-transfer; documented no-op "
+            "calls return the relation itself. The SQL engine's tree building is validated, not proved.", "", "DESIGN.md 5/C14"),
     "C15": (PR, "Lean 4 theorems: Transfer.simplify sound, iteration-engine transfers keep content, materialize of locked adds nothing, back-tracking stops at locked nodes, _finish_apply keeps locked nodes + regenerated is_locked table + correspondence",
             "Machine-checked: whatever Transfer.simplify hands back has the original content, the requested engine and is "
             "reached through transfers/unlocked markers only; transfers between iteration engines (incl. there-and-back) "
